@@ -811,3 +811,15 @@ def c02_m(ctx):
 def c02_n(ctx):
     from .C20 import c20_n
     c20_n(ctx)
+
+
+@obligation('C02-o', 'T10 T2', 'nothing is computed from max_parallel_batches, which defaults to the '
+            'number of cores of the executing client (shared with C04-m)', floor=5,
+            necessary='a seeded run must give the same result on every client: a draw whose size '
+                      'depends on the number of batches in flight consumes the round generator '
+                      'differently on an in-process and on a multi-core client')
+def c02_o(ctx):
+    from .C04 import parallelism_sweep
+    n = parallelism_sweep(ctx)
+    if n < 5:
+        ctx.undecided('expected at least 5 reads of max_parallel_batches, found {}'.format(n))
